@@ -35,8 +35,8 @@ def _links_rewritten(s):
         if c[1].get('k') == 'call' and c[1].get('short') in ('allocate', 'deallocate') and 'chunk' in c[1].get('cls', ''):
             return True     # small list: the chunk's own index list is rewritten by chunk::allocate / deallocate
     for w in s.writes:
-        if w[0] in ('this.first_',) or w[0].endswith('.next') or w[0].endswith('.prev'):
-            return True
+        if w[0] in ('this.first_',) or w[0].endswith('.next') or w[0].endswith('.prev') or w[0].endswith('.first_free'):
+            return True     # (small list: the chunk's own index list rewritten in place)
     return False
 
 
@@ -101,6 +101,11 @@ def check_unlink(run, db):
                     probs.append('capacity_ changes by [%s], not by minus the node count of the found interval' % linear.fmt(d)[:80])
                     continue
                 itv = m.group(1)
+                if not re.search(r'\w\(.*\)$', itv):
+                    # the interval is not the result of a search call but assembled in this function (the search loop inlined by hand):
+                    # the count cannot be related to the returned node by this rule - undecided, not a violation
+                    run.broke('%s counts the interval %s, which is not the result of a search function: the array branch is not decidable by R-UNLINK' % (f.display, itv[:40]))
+                    continue
                 if s.ret is None or not (itv + '.first') in s.ret:
                     probs.append('returns %s but counts the interval %s' % (s.ret, itv))
             if not saw:
